@@ -14,7 +14,7 @@ on ragged input.
 import ast
 
 from ..core import rule
-from ..srcmodel import AnalysisError, walk_no_nested, unparse, norm_stmt
+from ..srcmodel import AnalysisError, walk_no_nested, unparse, norm_stmt, parent
 from .. import terms as T
 from .. import siblings as SB
 from .common import *
@@ -154,3 +154,69 @@ def delegation_roles(ctx):
     mass = ctx.model.lookup_prop(mc, 'mass')
     r = [x for x in mass[0].node.body if isinstance(x, ast.Return)] if mass and mass[0] else []
     ctx.check(bool(r) and unparse(r[0].value) == 'sum(self.weights)', 'measure.mass', 'sum of the weights', 'measure.mass returns %s' % (unparse(r[0].value) if r else None), mass[0], mass[0].node)
+
+
+@rule('C19.d', min_instances=24)
+def explicit_sums(ctx):
+    """pof / pof_value add the weight of exactly the points where f(point) <= 0; expect / expect_var / support / support_index / mass and the measure setters keep their confirmed explicit-sum delegations; flatten / update / load of product measures and scenarios keep their confirmed cut-and-rebuild shape"""
+    from .c19_refs import REFS
+    what = {'pof': 'sum of weights over positions with f(x) <= 0', 'pof_value': 'sum of weights over values with f(y) <= 0'}
+    for a, src in sorted(REFS.items()):
+        if not a.startswith(DS + ':'):
+            continue
+        name = a.split('.')[-1]
+        _ref(ctx, a, src, what.get(name, 'confirmed definition of %s' % a.split(':')[1]))
+
+
+VALUE_SENSITIVE = {'set', 'frozenset', 'dict', 'sorted', 'unique', 'fromkeys', 'index', 'count', 'sort', 'remove', 'Counter', 'groupby', 'min', 'max',
+                   'argsort', 'searchsorted', 'where', 'nonzero'}
+INDEX_ONLY = {'len', 'list', 'tuple', 'append', 'extend', 'range', 'enumerate', 'zip', 'iter', 'recurse', 'chain', 'product', 'prod', 'int', 'reversed',
+              'asarray', 'array', 'flatten', 'tolist', 'ones', 'zeros', 'isinstance', 'hasattr'}
+PACKERS = ['_pack', '_unpack', '_flat', '_nested', '_nested_split']
+
+
+@rule('C19.e', min_instances=9)
+def index_only_packing(ctx):
+    """_pack / _unpack / _flat / _nested / _nested_split are parametric in the point values: elements are moved by index, slice and iteration only - never compared, hashed, sorted or de-duplicated (so repeated positions and zero weights survive the round trip); _pack / _unpack keep their confirmed Cartesian order and stride arithmetic"""
+    from .c19_refs import REFS
+    mm = ctx.model.module(MS)
+    for name in PACKERS:
+        f = ctx.func('%s:%s' % (MS, name))
+        data = set(f.args())
+        shape = {'npts'}
+        bodies = [f] + [g for q, g in sorted(mm.funcs.items()) if q.startswith(name + '.')]
+        n_ops = 0
+        verdict = None
+        for g in bodies:
+            ctx.touch(g)
+            for n in ast.walk(g.node):
+                if isinstance(n, ast.Call):
+                    cal = callee_text(n).split('.')[-1]
+                    n_ops += 1
+                    if cal in VALUE_SENSITIVE:
+                        verdict = verdict or ('bad', '%s inspects the point values with %s(...)' % (name, callee_text(n)), n)
+                    elif cal not in INDEX_ONLY and cal not in PACKERS:
+                        verdict = verdict or ('unknown', '%s calls %s(...), which is neither a known index-only nor a known value-sensitive operation' % (name, callee_text(n)), n)
+                elif isinstance(n, (ast.Set, ast.SetComp, ast.Dict, ast.DictComp)):
+                    verdict = verdict or ('bad', '%s hashes the point values into a %s' % (name, type(n).__name__), n)
+                elif isinstance(n, ast.Compare):
+                    # comparisons may involve indices, cursors and shapes, not the elements themselves
+                    n_ops += 1
+                    raw = [x for x in ast.walk(n) if isinstance(x, ast.Name) and x.id in data - shape and
+                           not (isinstance(parent(x), ast.Call) and callee_text(parent(x)) == 'len')]
+                    if raw:
+                        verdict = verdict or ('bad', '%s compares point values: %s' % (name, unparse(n)), n)
+        if verdict and verdict[0] == 'unknown':
+            raise AnalysisError('C19.e: ' + verdict[1])
+        if verdict:
+            ctx.bad(name + '#parametric', verdict[1], f, verdict[2])
+        else:
+            ctx.ok(name + '#parametric', '%d operations, all index / slice / iteration' % n_ops, f, f.node)
+    for a in (MS + ':_pack', MS + ':_pack.recurse', MS + ':_unpack', MS + ':_unpack.recurse', MS + ':_flat', MS + ':_nested'):
+        if '.' in a.split(':')[1] and a.split(':')[1] not in mm.funcs:
+            # the closure is gone: the enclosing function's own comparison (just above) has already differed
+            ctx.need(any(k == a.split(':')[1].split('.')[0] for k in ctx.bad_keys()), '%s vanished although its enclosing function is unchanged' % a)
+            continue
+        _ref(ctx, a, REFS[a], {'_pack': 'recursion from the last factor: first factor varies fastest', '_pack.recurse': 'first factor varies fastest',
+                               '_unpack': 'factor 0 = first npts[0] entries of column 0', '_unpack.recurse': 'factor i = column i sliced [:prod(npts[:i+1]):prod(npts[:i])]',
+                               '_flat': 'concatenation of the factors', '_nested': 'consecutive runs of npts[i] values'}[a.split(':')[1]])
